@@ -55,7 +55,7 @@ def quiet(f, *a, **k):
 
 # ------------------------------------------------------------------ array variants
 
-VARIANTS = ["f64", "f32", "int", "view", "readonly"]
+VARIANTS = ["f64", "f32", "int", "view", "readonly", "nan"]
 REPR_VARIANTS = ["f32", "int", "view", "readonly", "fortran", "reversed"]
 
 
@@ -85,6 +85,9 @@ class A:
             base.flat[1] = 0.0            # exact zeros expose "+= tiny" style in-place edits
         if complex_:
             base = base + 1j * self.rng.uniform(lo, hi, size=shape)
+        if v == "nan" and not positive and base.size > 3:
+            base.flat[2] = np.nan         # a flagged bad pixel / missing sample: whatever the function makes of it, the array is the caller's
+            return base
         if v == "f32" and f32 and not complex_:
             return base.astype(np.float32)
         if v == "int" and ints and not complex_:
@@ -273,9 +276,15 @@ def call(name, fn, args, kwargs):
         return None
     if short in ("PhaseScreenVonKarman", "PhaseScreenKolmogorov"):
         o = fn(*args, **kwargs)
-        a = np.array(o.scrn, copy=True)
+        held = o.scrn
+        a = np.array(held, copy=True)
+        r1 = o.add_row()
+        b = np.array(r1, copy=True)
         o.add_row()
-        return [a, np.array(o.scrn, copy=True), str(o) if short == "PhaseScreenKolmogorov" else ""]
+        # results already handed out are the caller's: a later call must not rewrite them
+        if not (np.array_equal(held, a) and np.array_equal(r1, b)):
+            raise Violation("%s: a screen handed out earlier (by .scrn or add_row()) was rewritten by a later add_row()" % short)
+        return [a, b, str(o) if short == "PhaseScreenKolmogorov" else ""]
     if short == "CovarianceMatrix":
         o = fn(*args, **kwargs)
         m = np.array(o.make_covariance_matrix(), copy=True)
@@ -374,9 +383,15 @@ def one_call_body(ctx, case):
         np.random.seed(seed % (2**32))
         try:
             r1 = quiet(call, name, fn, args, kwargs)
-        except ValueError as e:
-            if "read-only" in str(e):
+        except Exception as e:
+            if isinstance(e, ValueError) and "read-only" in str(e):
                 raise Violation("%s attempted an in-place write to a read-only argument (%s)" % (name, e))
+            if variant == "nan" and not isinstance(e, Violation):
+                # rejecting data with a NaN is an answer; the arguments must still be the caller's
+                ch = describe_change(before, watched(), "arguments")
+                ctx.require(ch is None, "%s modified its arguments (nan variant, call raised %s): %s" % (name, type(e).__name__, ch))
+                ctx.classes["nan_rejected_by_function"] += 1
+                return
             raise
         except (TypeError, np.exceptions.DTypePromotionError if hasattr(np, "exceptions") else TypeError) as e:
             if "Cannot cast ufunc" in str(e) or "same_kind" in str(e):
